@@ -134,10 +134,23 @@ def run(E: Engine, rep: Report, tier: str) -> dict:
         props, req = set(o["properties"]), set(o.get("required", []))
         rep.check(props == set(ef), "TABLE", f"RydbergEOM|{p}|fields=schema-properties", f"{len(props)} keys", f"RydbergEOM fields vs schema: {sorted(set(ef) ^ props)}", SCH_DIR + "device-schema.json")
         rep.check(req == set(ef) - set(opt_eom), "TABLE", f"RydbergEOM|{p}|always-emitted=schema-required", f"{len(req)} required", f"RydbergEOM required mismatch: {sorted(req ^ (set(ef) - set(opt_eom)))}", SCH_DIR + "device-schema.json")
+    # keys read for the RydbergEOM construction (helpers of _deserialize_channel are seen through)
+    from .. import sym as _sym
+    from .symutil import S as _S
+
     read = set()
-    for n in ast.walk(dc.node):
-        if isinstance(n, ast.Subscript) and isinstance(n.value, ast.Name) and n.value.id == "data" and isinstance(n.slice, ast.Constant):
-            read.add(n.slice.value)
+    mismatched = []
+    for l in _S(E, dc).calls("RydbergEOM"):
+        for k, v in l.value[3]:
+            if k == "**":
+                continue
+            idxs = [x for x in _sym.subterms(v) if x[0] == "idx" and x[2][0] == "const" and isinstance(x[2][1], str)]
+            prefixes = {x[1] for x in idxs}
+            keys = {x[2][1] for x in idxs if x not in prefixes}  # data["k"], not the path obj["eom_config"] leading to data
+            read |= keys
+            if keys != {k}:
+                mismatched.append((k, sorted(keys)))
+    rep.check(not mismatched, "TABLE", "deserializer|RydbergEOM-key=field", "every RydbergEOM field is decoded from the key of the same name", f"RydbergEOM fields decoded from other keys: {mismatched}", E.where(dc))
     rep.check(read | set(opt_eom) == {n for n, f in ef.items() if f.init}, "TABLE", "deserializer|RydbergEOM-keys", f"explicit keys {sorted(read)} + optional table = init fields", f"_deserialize_channel reads {sorted(read)} (+{opt_eom}) but RydbergEOM init fields are {sorted(n for n, f in ef.items() if f.init)}", E.where(dc))
 
     # ------------------------------------------------------------ DEVICE
